@@ -53,10 +53,10 @@ func ProcessMsg(in Row) (Row, string) {
 		panic("wire: " + err.Error())
 	}
 	w.ConfirmEpoch(1)
-	snd, dst := w.Addr("u0a"), w.Addr("u1a")
-	if len(call) > 0 {
-		dst = w.Addr("c1a")
-	}
+	// sender and destination kinds (user / contract) are dimensions of their own: given by the row, or derived from its content
+	sk, dk := kindOf(in, "sk", which, call, 0), kindOf(in, "dk", which, call, 1)
+	out["sk"], out["dk"] = sk, dk
+	snd, dst := w.Addr([]string{"u0a", "c0a"}[sk]), w.Addr([]string{"u1a", "c1a"}[dk])
 	acc := world.NewAccount(snd, w.Shards[0])
 	for _, it := range items {
 		n := new(big.Int).SetBytes(it.nonce).Uint64()
@@ -146,6 +146,35 @@ func ProcessMsg(in Row) (Row, string) {
 	return out, nt
 }
 
+// kindOf: 0 = user account, 1 = contract.
+func kindOf(in Row, field string, which []byte, call [][]byte, bit uint) int {
+	if v, ok := in[field]; ok {
+		if f, ok := v.(float64); ok {
+			return int(f) & 1
+		}
+		if n, ok := v.(int); ok {
+			return n & 1
+		}
+	}
+	h := uint32(2166136261)
+	mix := func(b []byte) {
+		for _, x := range b {
+			h = (h ^ uint32(x)) * 16777619
+		}
+		h = (h ^ 0xff) * 16777619
+	}
+	mix(which)
+	for _, c := range call {
+		mix(c)
+	}
+	for _, x := range L(in["items"]) {
+		it := x.(map[string]interface{})
+		mix(B(it["tok"]))
+		mix(B(it["qty"]))
+	}
+	return int(h>>(3+bit)) & 1
+}
+
 // RandMsg draws a transfer with an attached call.
 func RandMsg(r *rand.Rand) Row {
 	which := []string{"ESDTTransfer", "ESDTNFTTransfer", "MultiESDTNFTTransfer", "MultiESDTNFTTransfer"}[r.Intn(4)]
@@ -191,5 +220,5 @@ func RandMsg(r *rand.Rand) Row {
 			call = append(call, randBytes(r, randLen(r)))
 		}
 	}
-	return Row{"k": "msg", "src": "rand", "which": I([]byte(which)), "items": items, "call": II(call)}
+	return Row{"k": "msg", "src": "rand", "which": I([]byte(which)), "items": items, "call": II(call), "sk": r.Intn(2), "dk": r.Intn(2)}
 }
